@@ -30,6 +30,11 @@ claim('C05', 'Mixed: frames of the edit primitives proved (replace = functional 
 claim('C06', 'Mixed: the table invariant (every entry names a successor, every successor has an entry, keys preserved under position-wise renaming) is proved for '
       'SyntheticBranch.replace_jump_targets; assigned-before-use and in-range are decided per instance on every reachable (block, valuation) of the product '
       'exploration (bounded).', TB, PROOF_PLUS_BOUNDED, '5.C06')
+claim('C13', 'Mixed, mostly proved: find_head, find_headers_and_entries (top-level graphs), find_exiting_and_exits, is_reachable_dfs, exclude_blocks, '
+      'jump_targets, is_exiting are proved equal to their definitions for all graphs (incl. external targets, duplicates, back edges); compute_scc/scc, '
+      '_doms/_post_doms/_find_dominators_internal and _imm_doms are compared with brute-force path-based definitions on all small digraphs (bounded).',
+      TB + '; axiom R-ind (closure principle of reachability) assumed; find_headers_and_entries proved for region kind "meta" only (the recursion through the '
+      'parent region is bounded)', PROOF_PLUS_BOUNDED, '5.C13')
 claim('C14', 'Mixed, mostly proved: all value-level clauses of insert_block and its four typed wrappers, add_block, remove_blocks and '
       'SyntheticBranch.replace_jump_targets are discharged for all inputs (exact re-routing, order of remaining successors, positional replacement, frame); '
       'region predecessors and edit sequences are bounded.', TB + '; R3 (predecessor with a declared back edge) is a recorded finding, proved on its complement',
